@@ -40,7 +40,7 @@ def run(ck):
     # ---- C->S: own output
     traces = cellcommon.drive_shards(ck, "C01")
     def val(tp):
-        return ck.validate_events("Cells_Trace", "trace/Cells_Trace.cfg", tp, timeout=3000, name="trace_" + os.path.basename(tp)[6:8], heap_gb=6)
+        return ck.validate_events("Cells_Trace", "trace/Cells_Trace.cfg", tp, timeout=3000, name="trace_" + os.path.basename(tp)[6:8], heap_gb=3)
     distinct = set()
     nidx = 0
     kinds = {}
